@@ -22,7 +22,9 @@ RECURSIVE Upto(_, _)
 Upto(L, d) == IF d = 0 THEN L ELSE L \cup Apps(Upto(L, d - 1))
 
 TermSeq   == SetToSeq(Upto(GLeaves, TDepth))
-PatSeq(p) == SetToSeq(Upto(Leaves, p))
+PatSeq1   == SetToSeq(Upto(Leaves, 1))        \* zero-arity constant definitions: TLC evaluates them once
+PatSeq2   == SetToSeq(Upto(Leaves, 2))
+PatSeq(p) == IF p = 1 THEN PatSeq1 ELSE PatSeq2
 NT        == Len(TermSeq)
 
 RuleConst == <<"r1", "r2", "r3", "r4">>
